@@ -931,6 +931,21 @@ def register_all(M):
     M.drops['std::sync::Mutex'] = drop_lock
     M.drops['std::sync::RwLock'] = drop_lock
 
+    def drop_poison_error(I, ext, a):
+        v = deref_to_value(a[0])
+        t = P.tys[targ(ext)]
+        I.drop_value_at(v, 0, t['targs'][0])
+        return UNIT()
+    M.drops['std::sync::PoisonError'] = drop_poison_error
+
+    def drop_try_lock_error(I, ext, a):
+        v = deref_to_value(a[0])
+        if v.v == 0:
+            t = P.tys[targ(ext)]
+            I.drop_value_at(v.f[0], 0, t['targs'][0])
+        return UNIT()
+    M.drops['std::sync::TryLockError'] = drop_try_lock_error
+
     @reg('std::sync::PoisonError::<T>::into_inner')
     def poison_into_inner(I, ext, a):
         return a[0].f[0]
